@@ -1010,6 +1010,24 @@ func main() {
 			jobs = append(jobs, Job{Kind: "grid", Cap: ci, From: from, N: packSize, Qk: quick})
 		}
 	}
+	// deterministic stride order, so that a run cut by the deadline still samples the whole grid
+	if n := len(jobs) - 2; n > 1 {
+		gcd := func(a, b int) int {
+			for b != 0 {
+				a, b = b, a%b
+			}
+			return a
+		}
+		stride := 389
+		for gcd(n, stride) != 1 {
+			stride++
+		}
+		perm := make([]Job, n)
+		for i := 0; i < n; i++ {
+			perm[i] = jobs[2+(i*stride)%n]
+		}
+		copy(jobs[2:], perm)
+	}
 	fmt.Printf("grid: %d populations x %d cap settings in %d packs\n", len(pops), len(capSettings), len(jobs)-2)
 	results, crashed := mc.Map[Job, Result](pool, jobs, r.Expired)
 	var evals, gpops, capBinds, cutsTie, empty, queries, done int
